@@ -55,6 +55,7 @@ def step (line : String) : String :=
   | "C18" :: ts => stepC18 ts
   | "C19" :: ts => stepC19 ts
   | "C20" :: ts => stepC20 ts
+  | "C21" :: ts => stepC19 ts
   | "C22" :: ts => stepC22 ts
   | "C23" :: ts => stepC23 ts
   | "C24" :: ts => stepC24 ts
